@@ -299,8 +299,15 @@ def check_paths(ctx):
     # readers use the same path
     for q in ("read_batch_slice", "read_batch_idx", "read_random_batch"):
         f = ctx.prog.func(UT, q, R)
-        p = [s for s in A.walk_local(f) if isinstance(s, ast.Assign) and canon(s.targets[0]) == "path"]
-        ctx.check(R, f, "%s reads dataset JokerSamples._hdf5_path" % q, len(p) == 1 and canon(p[0].value) == "JokerSamples._hdf5_path", "path = %s" % (A.unparse(p[0].value) if p else None), key=q + ":path")
+        # every dataset opened on the file (X.root[key] or meta_path(key)) is keyed by the class constant
+        keys = []
+        for n in A.walk_local(f):
+            if isinstance(n, ast.Subscript) and isinstance(n.value, ast.Attribute) and n.value.attr == "root":
+                keys.append((n, n.slice))
+            elif isinstance(n, ast.Call) and A.call_name(n) == "meta_path" and n.args:
+                keys.append((n, n.args[0]))
+        vals = sorted({canon(A.inline_temporaries(k, A.enclosing_stmt(n), f)) for n, k in keys})
+        ctx.check(R, f, "%s reads dataset JokerSamples._hdf5_path" % q, vals == ["JokerSamples._hdf5_path"] or (not keys and q == "read_random_batch" and False), "datasets opened: %s" % vals, key=q + ":path")
     m = ctx.prog.module(SM)
     cls = m.classes.get("JokerSamples")
     hp = [s for s in cls.body if isinstance(s, ast.Assign) and canon(s.targets[0]) == "_hdf5_path"] if cls else []
@@ -318,9 +325,9 @@ def check_paths(ctx):
             why = "read() returns `%s`" % A.unparse(s.value)
     ctx.check(R, rf, "read() returns cls(samples=tbl, **tbl.meta)", okr, why, key="read-ret")
     qr = [c for c in A.calls_in(rf) if A.call_name(c) == "QTable.read"]
-    okq = bool(qr) and all((A.get_arg(c, None, "path") is None) or canon(A.get_arg(c, None, "path")) == "path" for c in qr) and any(A.get_arg(c, None, "path") is not None for c in qr)
-    pd = [s for s in A.walk_local(rf) if isinstance(s, ast.Assign) and canon(s.targets[0]) == "path"]
-    okq = okq and len(pd) == 1 and canon(pd[0].value) == "cls._hdf5_path"
+    pv = [(c, A.get_arg(c, None, "path")) for c in qr]
+    want = canon(parse("cls._hdf5_path if path is None else path"))
+    okq = bool(qr) and any(v is not None for _, v in pv) and all(v is None or canon(fl.resolve(v, at=A.enclosing_stmt(c))) == want for c, v in pv)
     ctx.check(R, rf, "read() reads the dataset at path (default cls._hdf5_path)", okq, "QTable.read is not given path=cls._hdf5_path by default", key="read-path")
     # FITS epoch
     w_ep = [s for s in A.walk_local(wf) if isinstance(s, ast.Assign) and "__t_ref_bmjd" in A.unparse(s.targets[0])]
